@@ -786,6 +786,74 @@ static void variant_narrowing_array(uint64_t& idx)
   explore("narrowing load of an array", tag, setup, body2, { M_SETHIGH, M_SMALL2 }, idx);
 }
 
+// ---- atomic equivalence of single-cell copies -------------------------------------------------------------------
+// Whatever the adversary does, the outcome of a verified copy of one primitive cell - an abort, or the bytes the verifier /
+// the application received - must be the outcome the same call has on a cell that nobody rewrites and that holds one of the
+// contents the cell held. A value validated on one read and delivered from another is the outcome of none of them (e.g. a
+// representation check passed on 0x01 and 0xFF delivered, where a still cell holding 0xFF is refused).
+template<class T>
+static std::string atomic_op(int path, uint64_t off)
+{
+  T got{};
+  try {
+    auto p = sp<T>(off);
+    switch (path) {
+      case 0: { tn<T> x = *p; got = x.UNSAFE_unverified(); break; }
+      case 1: got = p->copy_and_verify([](T v) { return v; }); break;
+      case 2: got = p.copy_and_verify([](std::unique_ptr<T> v) { return *v; }); break;
+      case 3: got = p.copy_and_verify_range([](std::unique_ptr<T[]> v) { return v[0]; }, 1); break;
+    }
+  } catch (const std::runtime_error&) {
+    return "abort";
+  }
+  uint8_t b[sizeof(T)];
+  memcpy(b, &got, sizeof(T));
+  std::string r = "bytes";
+  char t[4];
+  for (size_t i = 0; i < sizeof(T); i++) {
+    snprintf(t, sizeof t, " %02x", b[i]);
+    r += t;
+  }
+  return r;
+}
+template<class T>
+static void variant_atomic(uint64_t& idx)
+{
+  const uint64_t off = 0x4800, scratch = 0x4900;
+  const uint64_t GW = sizeof(rlbox::tainted_volatile<T, SB>);
+  std::string tag = std::string("atomic<") + tname<T>() + "> guest width " + std::to_string(GW);
+  auto setup = [=] {
+    g_sc = Scenario{ off, GW, off - 16, GW + 48, false };
+    memset(g_mem + off - 16, 0, GW + 48);
+    g_mem[off] = 1;
+  };
+  static const char* pn[] = { "load to tainted", "copy_and_verify(value)", "copy_and_verify(pointer)", "copy_and_verify_range x1" };
+  for (int path = 0; path < 4; path++) {
+    Variant body = [=](Verdict& vd) {
+      std::string got = atomic_op<T>(path, off);
+      // reference outcomes: the same call on a still cell holding each content the cell held
+      bool was = g_in_op;
+      g_in_op = false;
+      bool match = false;
+      std::string refs;
+      for (auto& v : g_versions) {
+        memcpy(g_mem + scratch, v.data() + 16, GW);
+        std::string r = atomic_op<T>(path, scratch);
+        refs += "[" + r + "] ";
+        if (r == got) match = true;
+      }
+      g_in_op = was;
+      if (!match) vd.problems.push_back("outcome-of-no-held-content: the call ended with [" + got + "]; on a still cell holding any of the " + std::to_string(g_versions.size()) + " contents the cell held it ends with " + refs);
+    };
+    explore((std::string("atomic ") + pn[path]).c_str(), tag, setup, body, { M_FLIP, M_OVERWRITE, M_SMALL2 }, idx);
+  }
+}
+template<class... Ts>
+static void variant_atomic_all(uint64_t& idx)
+{
+  (variant_atomic<Ts>(idx), ...);
+}
+
 template<class T, int GW>
 static void variant_deny(uint64_t off, size_t n, uint64_t& idx)
 {
@@ -841,6 +909,7 @@ int main(int argc, char** argv)
   variant_narrowing<short>(idx);
   variant_narrowing_array<int>(idx);
   variant_narrowing_array<short>(idx);
+  variant_atomic_all<bool, char, short, int, unsigned, long>(idx);
   stat("evaluations", n_eval);
   stat("scripts", n_scripts);
   stat("nontrivial", n_nontriv);
@@ -876,6 +945,7 @@ int main(int argc, char** argv)
   variant_cell<int, 4>(idx);
   variant_cell<long, 4>(idx);
   variant_cell_string(idx);
+  variant_atomic_all<bool, char, unsigned char, short, unsigned short, int, unsigned, long, unsigned long, long long, float, double, char16_t>(idx);
   variant_struct(0x4000, idx);
   variant_struct(kSize - sizeof(VS_lp32_p16), idx);
   for (uint64_t len = 0; len <= 3; len++) {
